@@ -271,6 +271,11 @@ class Gen:
             if key is not None:
                 seen.add(key)
             out.append(q)
+        simple = [q for q in out if q[0] is None and not q[2] and q[1]]
+        if simple and r.random() < 0.12:
+            # a plain medium named a second time (in whatever letter case it is written then): the parser keeps the first and drops the rest
+            out.append(r.choice(simple))
+            self.repeated_medium = True
         return out
 
     # ---- statements -----------------------------------------------------------------------------------
@@ -924,7 +929,15 @@ class Expect:
         return (mod.lower() if mod else None, mtype.lower() if mtype else None, [(f.lower(), exp_comp(v) if v is not None else None) for f, v in feats])
 
     def queries(self, qs):
-        out = [self.query(q) for q in qs]
+        out = []
+        seen = set()
+        for q in qs:
+            e = self.query(q)
+            if e[0] is None and not e[2] and e[1]:
+                if e[1] in seen:
+                    continue  # a repeated plain medium is dropped (the first stays where it is)
+                seen.add(e[1])
+            out.append(e)
         # a simple 'all' absorbs the list (C17); the generator never emits it among others
         return out
 
